@@ -14,6 +14,9 @@
 #ifndef EMAX
 #define EMAX 8
 #endif
+#ifndef STDLCM
+#define STDLCM 1 // also compare lcm with std::lcm in q_lcm_*
+#endif
 #ifndef PN
 #define PN 7 // elements in the array used by midpoint(T*, T*)
 #endif
@@ -147,27 +150,38 @@ static bool is_quot(T x, T y, T q)
     uwide_t ax = umag(x), ay = umag(y), p = uwide_t(uq) * ay;  // < 2^(2W): exact
     return (q == 0 || (q < 0) == neg) && p <= ax && ax - p < ay;
 }
-Q q_div_sat()
+// SG < 0: all operand signs in one query; SG = 0..3: the case (x < 0) == bit 0, (y < 0) == bit 1 (the four cases partition the domain;
+// used for the 32/64-bit signed types, where the unsplit query is not decided in time)
+template <int SG> static void div_sat_case()
 {
     T x = nd<T>(); T y = nd<T>(); vf_assume(y != 0); // documented precondition
+    if constexpr (SG >= 0) vf_assume((x < 0) == bool(SG & 1) && (y < 0) == bool(SG & 2));
     T r = k_div_sat(x, y);
-    if (S && x == TMIN && y == T(-1)) { vf_witness("min / -1"); vf_assert(r == TMAX, "div_sat(min, -1) == max"); }
+    if (S && x == TMIN && y == T(-1)) { if constexpr (SG < 0 || SG == 3) vf_witness("min / -1"); vf_assert(r == TMAX, "div_sat(min, -1) == max"); }
     else {
-        if (S && x < 0 && y < 0) vf_witness("both negative");
+        if constexpr (S && (SG < 0 || SG == 3)) { if (x < 0 && y < 0) vf_witness("both negative"); }
         vf_assert(is_quot(x, y, r), "div_sat: |x| == |q| * |y| + rho, 0 <= rho < |y|, sign(q) == sign(x) xor sign(y)");
         if (W == 8) vf_assert(r == T(x / y), "div_sat == x / y");
     }
 }
-Q q_idiv()
+template <int SG> static void idiv_case()
 {
-    T x = nd<T>(); T y = nd<T>(); vf_assume(y != 0); vf_assume(!(S && x == TMIN && y == T(-1))); // quotient representable
-    T* qr = (T*)vf_alloc(2 * sizeof(T)); qr[0] = nd<T>(); qr[1] = nd<T>();
+    T x = nd<T>(); T y = nd<T>(); T q0 = nd<T>(); T r0 = nd<T>();
+    vf_assume(y != 0); vf_assume(!(S && x == TMIN && y == T(-1))); // quotient representable
+    if constexpr (SG >= 0) vf_assume((x < 0) == bool(SG & 1) && (y < 0) == bool(SG & 2));
+    T* qr = (T*)vf_alloc(2 * sizeof(T)); qr[0] = q0; qr[1] = r0;
     k_idiv(x, y, &qr[0], &qr[1]);
-    if (S && x < 0 && y > 0) vf_witness("negative dividend");
+    if constexpr (S && (SG < 0 || SG == 1)) { if (x < 0 && y > 0) vf_witness("negative dividend"); }
     vf_assert(is_quot(x, y, qr[0]), "idiv quot: |x| == |q| * |y| + rho, 0 <= rho < |y|, sign(q) == sign(x) xor sign(y)");
     vf_assert(qr[1] == T(UT(x) - UT(qr[0]) * UT(y)), "idiv rem == x - quot * y");
     if (W == 8) vf_assert(qr[0] == T(x / y) && qr[1] == T(x % y), "idiv == {x / y, x % y}");
 }
+Q q_div_sat() { div_sat_case<-1>(); }
+Q q_idiv() { idiv_case<-1>(); }
+#if S
+Q q_div_sat_pp() { div_sat_case<0>(); } Q q_div_sat_np() { div_sat_case<1>(); } Q q_div_sat_pn() { div_sat_case<2>(); } Q q_div_sat_nn() { div_sat_case<3>(); }
+Q q_idiv_pp() { idiv_case<0>(); } Q q_idiv_np() { idiv_case<1>(); } Q q_idiv_pn() { idiv_case<2>(); } Q q_idiv_nn() { idiv_case<3>(); }
+#endif
 
 // ---------------------------------------------------------------- midpoint: a + trunc((b - a) / 2), i.e. rounded towards a
 Q q_midpoint()
@@ -195,14 +209,21 @@ Q q_abs()
 // exact power by its definition: e successive multiplications by b, none of which overflows T (assumed: then the
 // result is representable). The product itself is formed with the same wrapping multiply the flag refers to.
 static T ref_pow(T b, int e, bool* ovf) { T acc = 1; for (int i = 0; i < e; i++) { T t; if (__builtin_mul_overflow(acc, b, &t)) *ovf = true; acc = T(UT(acc) * UT(b)); } return acc; }
-Q q_ipow()
+// q_ipow carries no inner witnesses: for the 32/64-bit types it is decided by z3 on the exported verification condition (two
+// multiplier chains; SAT back ends do not finish), and that route needs an entry whose only assertions are obligations.
+// For 32/64-bit unsigned T no overflow assumption is needed: both sides are the product modulo 2^W (defined behaviour).
+template <bool WIT> static void ipow_case()
 {
     T b = nd<T>(); T e = nd<T>(); vf_assume(e >= 0 && e <= EMAX);
-    bool ovf = false; T x = ref_pow(b, int(e), &ovf); vf_assume(!ovf);
-    if (e == EMAX) vf_witness("largest exponent"); if (e == 0 && b == 0) vf_witness("0^0"); if (S && b < 0 && (e & 1)) vf_witness("negative base, odd exponent");
-    if (e >= 2 && b > 2) vf_witness("non-trivial power");
-    vf_assert(k_ipow(b, e) == x, "ipow(b, e) == b^e");
+    bool ovf = false; T x = ref_pow(b, int(e), &ovf); if (S || W < 32) vf_assume(!ovf); // narrower unsigned types multiply in int
+    if constexpr (WIT) {
+        if (e == EMAX) vf_witness("largest exponent"); if (e == 0 && b == 0) vf_witness("0^0");
+        if constexpr (S) { if (b < 0 && (e & 1)) vf_witness("negative base, odd exponent"); }
+        if (e >= 2 && b > 2) vf_witness("non-trivial power");
+    } else vf_assert(k_ipow(b, e) == x, "ipow(b, e) == b^e");
 }
+Q q_ipow() { ipow_case<false>(); }
+Q q_ipow_wit() { ipow_case<true>(); }
 static constexpr int emax_of(u64 b) { int e = 0; i128 v = 1; while (v * (i128)b <= TMAX) { v *= (i128)b; e++; } return e; } // largest e with b^e <= max
 Q q_ipow_tpl()
 {
@@ -270,7 +291,15 @@ static u64 ref_gcd(u64 a, u64 b) { while (b != 0) { u64 t = a % b; a = b; b = t;
                 if (d > 0 && UC(am) % UC(d) == 0 && UC(an) % UC(d) == 0) { if (d == g && g > 1) vf_witness("nontrivial divisor"); vf_assert(d <= g, "every common divisor is <= gcd"); } \
             }                                                                                                          \
         }                                                                                                              \
-        vf_assert(g == std::gcd(m, n), "gcd == std");                                                                  \
+    }                                                                                                                  \
+    Q q_gcd_std_##NU()                                                                                                 \
+    {                                                                                                                  \
+        typedef ct_t<T, U> C; T m = nd<T>(); U n = nd<U>();                                                            \
+        vf_assume(absi(m) <= hi_of<C> && absi(n) <= hi_of<C>);                                                         \
+        VF_KNOWN(C14_gcd_negative, m < 0 || n < 0);                                                                    \
+        VF_KNOWN(C14_gcd_mixed_narrowing, (i128)T(n) != (i128)n);                                                      \
+        if (m > 1 && n > 1) vf_witness("both > 1");                                                                    \
+        vf_assert(k_gcd_##NU(m, n) == std::gcd(m, n), "gcd == std");                                                   \
     }                                                                                                                  \
     Q q_lcm_##NU()                                                                                                     \
     {                                                                                                                  \
@@ -287,7 +316,7 @@ static u64 ref_gcd(u64 a, u64 b) { while (b != 0) { u64 t = a % b; a = b; b = t;
         C l = k_lcm_##NU(m, n);                                                                                        \
         if (am == 0 || an == 0) vf_witness("zero operand"); if (e == hi_of<C>) vf_witness("lcm == max");               \
         vf_assert((i128)l == e, "lcm == |m| / gcd(|m|, |n|) * |n|");                                                   \
-        vf_assert(l == std::lcm(m, n), "lcm == std");                                                                  \
+        if (STDLCM) vf_assert(l == std::lcm(m, n), "lcm == std");                                                      \
     }
 FOR_U(PAIR)
 
